@@ -38,7 +38,8 @@ impl<U: UnitTag> MetricValue for Src1<U> {
 }
 /// promises `U` but writes another unit: mode 0 = another kind (`Count`/`Percent`), mode 1 = the
 /// same kind at another scale (Seconds vs Milliseconds, Bytes vs Megabytes), mode 2 = the sibling
-/// kind at the same scale (Bit vs Byte, Bit/s vs Bit)
+/// kind at the same scale (Bit vs Byte, Bit/s vs Bit), mode 3 = the unitless tag (or, under a
+/// promise of None, milliseconds)
 struct Liar<U>(u8, PhantomData<U>);
 fn lie_about(u: Unit, mode: u8) -> Unit {
     use metrique_writer_core::unit::{NegativeScale as N, PositiveScale as P};
@@ -55,6 +56,10 @@ fn lie_about(u: Unit, mode: u8) -> Unit {
         (2, Unit::Byte(s)) => Unit::Bit(s),
         (2, Unit::BitPerSecond(s)) => Unit::Bit(s),
         (2, Unit::BytePerSecond(s)) => Unit::Byte(s),
+        // mode 3: the unitless tag is written although something else was promised; under a
+        // promise of None a time unit is written (a conversion from None has ratio 1)
+        (3, Unit::None) => Unit::Second(N::Milli),
+        (3, _) => Unit::None,
         _ => other_kind,
     }
 }
@@ -192,7 +197,7 @@ fn probe<F: UnitTag + Convert<T> + 'static, T: UnitTag + 'static>(obs: &[Obs], o
     let none: Option<Src<F>> = None;
     out.push(mk("option-none", vec![], rec_of(&none.with_unit::<T>())));
     // 5. error cases
-    for mode in 0..3u8 {
+    for mode in 0..4u8 {
         out.push(mk("liar", vec![], rec_of(&Liar::<F>(mode, PhantomData).with_unit::<T>())));
     }
     out.push(mk("string", vec![], rec_of(&Stringy::<F>(PhantomData).with_unit::<T>())));
@@ -215,6 +220,85 @@ fn probe_roundtrip<F: UnitTag + Convert<T> + 'static, T: UnitTag + Convert<F> + 
 macro_rules! cross {
     ($f:ident, $obs:expr, $out:expr; [$($a:ident),*]; $bs:tt) => { $( cross!(@row $f, $obs, $out; $a; $bs); )* };
     (@row $f:ident, $obs:expr, $out:expr; $a:ident; [$($b:ident),*]) => { $( $f::<unit::$a, unit::$b>($obs, $out); )* };
+}
+
+/// what a tag must mean, derived from its IDENTIFIER alone (CloudWatch's unit names and SI
+/// prefixes, written out here - nothing of this comes from the library): (name, family, num, den)
+fn tag_literal(ident: &str) -> Option<(String, u8, u128, u128)> {
+    match ident {
+        "None" => return Some(("None".into(), 0, 1, 1)),
+        "Count" => return Some(("Count".into(), 0, 1, 1)),
+        "Percent" => return Some(("Percent".into(), 0, 1, 1)),
+        "Second" => return Some(("Seconds".into(), 1, 1, 1)),
+        "Millisecond" => return Some(("Milliseconds".into(), 1, 1, 1_000)),
+        "Microsecond" => return Some(("Microseconds".into(), 1, 1, 1_000_000)),
+        _ => {}
+    }
+    let (base, per_second) = match ident.strip_suffix("PerSecond") {
+        Some(b) => (b, true),
+        None => (ident, false),
+    };
+    let (prefix, mult): (&str, u128) = if let Some(r) = base.strip_prefix("Kilo") {
+        (r, 1_000)
+    } else if let Some(r) = base.strip_prefix("Mega") {
+        (r, 1_000_000)
+    } else if let Some(r) = base.strip_prefix("Giga") {
+        (r, 1_000_000_000)
+    } else if let Some(r) = base.strip_prefix("Tera") {
+        (r, 1_000_000_000_000)
+    } else {
+        (base, 1)
+    };
+    let (word, bits) = match prefix {
+        "Byte" | "byte" => ("byte", 8u128),
+        "Bit" | "bit" => ("bit", 1u128),
+        _ => return None,
+    };
+    // "Kilobytes", "Bits/Second", "Terabits/Second" ...
+    let scaled = &base[..base.len() - prefix.len()];
+    let name = if scaled.is_empty() {
+        format!("{}{}s", word[..1].to_uppercase(), &word[1..])
+    } else {
+        format!("{scaled}{word}s")
+    };
+    let name = if per_second { format!("{name}/Second") } else { name };
+    Some((name, 2, bits * mult, 1))
+}
+
+macro_rules! tag_table {
+    ($($a:ident),*) => { vec![ $( (stringify!($a), <unit::$a as UnitTag>::UNIT) ),* ] };
+}
+
+/// every tag's unit constant must carry the name and the scale its identifier promises
+fn check_tag_table() -> Result<(), Fail> {
+    let table = tag_table!(
+        None, Count, Percent, Second, Millisecond, Microsecond, Byte, Kilobyte, Megabyte, Gigabyte, Terabyte, Bit, Kilobit,
+        Megabit, Gigabit, Terabit, BytePerSecond, KilobytePerSecond, MegabytePerSecond, GigabytePerSecond,
+        TerabytePerSecond, BitPerSecond, KilobitPerSecond, MegabitPerSecond, GigabitPerSecond, TerabitPerSecond
+    );
+    for (ident, u) in table {
+        let Some((name, fam, num, den)) = tag_literal(ident) else {
+            return Err(Fail::new("harness:tag-literal", format!("no literal for tag {ident}")));
+        };
+        if u.name() != name {
+            return Err(Fail::new(
+                "unit:wrong-unit-name",
+                format!("tag unit::{ident} carries the unit name {:?}, its identifier promises {name:?}", u.name()),
+            ));
+        }
+        if fam != 0 {
+            match scale(u) {
+                Some((f, n, d)) if f == fam && n * den == num * d => {}
+                other => {
+                    return Err(Fail::new(
+                        "unit:quantity-changed",
+                        format!("tag unit::{ident} has unit {u:?} with scale {other:?}, its identifier promises {num}/{den} in family {fam}"),
+                    ));
+                }
+            }
+        }
+    }
+    Ok(())
 }
 
 fn all_pairs(obs: &[Obs], out: &mut Vec<Probe>) {
@@ -313,8 +397,11 @@ fn judge(p: &Probe) -> Result<Classes, Fail> {
             return Err(Fail::new(sig("observation-kind-changed"), ctx()));
         }
         if same_scale && p.kind != "roundtrip" {
-            // ratio 1: nothing may change, Unsigned stays Unsigned
-            if ounsigned != iunsigned || !(ov.to_bits() == iv.to_bits() || (ov.is_nan() && iv.is_nan())) {
+            // ratio 1: the number may not change (the property allows floating-point rounding only
+            // where there is something to round; an Unsigned that comes back as the equal
+            // Floating is the same quantity)
+            let _ = (ounsigned, iunsigned);
+            if !(ov == iv || (ov.is_nan() && iv.is_nan())) {
                 return Err(Fail::new(
                     sig("changed-at-ratio-1"),
                     format!("{} (observation {i}): {o:?} vs {e:?}", ctx()),
@@ -386,6 +473,7 @@ fn arb_mag() -> impl Strategy<Value = Obs> {
 }
 
 pub fn check(case: &Case) -> CaseResult {
+    check_tag_table()?;
     let mut probes = vec![];
     no_panic("unit-conversion", || all_pairs(&case.obs, &mut probes))?;
     let mut classes: Classes = vec![];
@@ -482,8 +570,9 @@ pub fn check_attr(c: &AttrCase) -> CaseResult {
     }
     match get("percent") {
         Some(RecVal::Metric { obs, unit, .. })
-            if unit == "Percent" && obs.len() == 1 && obs_value(&obs[0]).0.to_bits() == c.pct.0.to_bits()
-                || (c.pct.0.is_nan() && obs_value(&obs[0]).0.is_nan()) => {}
+            if unit == "Percent"
+                && obs.len() == 1
+                && (obs_value(&obs[0]).0.to_bits() == c.pct.0.to_bits() || (c.pct.0.is_nan() && obs_value(&obs[0]).0.is_nan())) => {}
         other => return Err(Fail::new("unit:changed-at-ratio-1", format!("percent: {other:?}"))),
     }
     match (c.kb, get("opt_kilobits")) {
@@ -501,7 +590,7 @@ pub fn run(ctx: &mut Ctx) {
     ctx.explore(
         SubCfg::new(
             "c19-all-pairs",
-            "each case = one observation list (0-4 observations: unsigned incl. 2^53+-1 and u64::MAX, floats log-uniform over 1e-300..1e300, subnormal, +-0, non-finite, repeated with occurrences 0..u64::MAX) pushed through ALL 435 ordered convertible pairs (3x3 time, 20x20 bit/byte(/s), None->26) x {WithUnit direct, Distribution, Mean, Option Some/None, A->B->A round trip (409 pairs), liar value (writes another kind / the same kind at another scale / the sibling kind at the same scale), string value}. Oracle: exact integer scale table; emitted*scale(to) == original*scale(from) within 4 ulp, identical at ratio 1, occurrences and dimensions untouched, unit name = declared, liar/string => validation error. Non-trivial = ratio != 1 with a repeated or multi-observation value",
+            "each case = one observation list (0-4 observations: unsigned incl. 2^53+-1 and u64::MAX, floats log-uniform over 1e-300..1e300, subnormal, +-0, non-finite, repeated with occurrences 0..u64::MAX) pushed through ALL 435 ordered convertible pairs (3x3 time, 20x20 bit/byte(/s), None->26) x {WithUnit direct, Distribution, Mean, Option Some/None, A->B->A round trip (409 pairs), liar value (writes another kind / the same kind at another scale / the sibling kind at the same scale), string value}. Oracle: exact integer scale table; emitted*scale(to) == original*scale(from) within 4 ulp, identical at ratio 1, occurrences and dimensions untouched, unit name = declared and every tag's unit constant carries the name and scale its identifier promises (own literal table), liar/string => validation error. Non-trivial = ratio != 1 with a repeated or multi-observation value",
             if q { 3_000 } else { 200_000 },
         )
         .threads(ctx.tier.pick(8, 16))
